@@ -48,6 +48,9 @@ def make_job(rng, seed, nfiles=(2, 4), mode=None, small=True, restart=False, man
     t0 = (rng.randint(315532800, 4102444800) * 1000) // (sc * 1000) * (sc * 1000) + rng.randint(0, (sc * 1000) // fc - 1) * fc
     if rng.random() < 0.5:
         t0 = (t0 // (sc * 1000) + 1) * sc * 1000 - fc  # the second file starts a new subdirectory
+    if rng.random() < 0.12:
+        # the second count of the file names gains a digit inside the recording (10^9 s), within one subdirectory if possible
+        t0 = (10**12 // fc - rng.randint(1, 2)) * fc
     nw = rng.randint(*nfiles) + 1
     dt = rng.choice(["<i2", "<f4", ">i4", "<u1", ">f8", "<i8"])
     cc = cd.ChanConfig(n, d, fc, sc, np.dtype(dt), rng.random() < 0.4, rng.choice([1, 1, 2]), mode, t0, nw,
@@ -78,6 +81,8 @@ def make_job(rng, seed, nfiles=(2, 4), mode=None, small=True, restart=False, man
                 continue
         ops.append(["write", a - start, ln])
         pos = a + ln
+        if a - start > 0 and rng.random() < 0.3:
+            ops.append(["past"])          # a refused call in between (the writer object stays in use)
     ops.append(["close"])
     if restart:
         # the recorder is restarted on the same channel with a start index inside a period that is already published,
